@@ -63,7 +63,7 @@ func (e *Engine) Apply(op *Op) error {
 	e.Stats.Ops++
 	switch op.K {
 	// ------------------------------------------------------------ arrays
-	case "app", "ins", "set", "rem", "get", "pop", "appN", "remN", "grow", "reset", "badget", "badset", "badins", "badrem":
+	case "app", "ins", "set", "rem", "get", "pop", "appN", "remN", "setN", "grow", "reset", "badget", "badset", "badins", "badrem":
 		n := e.pick(op.T, false, true)
 		if n == nil {
 			e.Stats.Skipped++
@@ -75,7 +75,7 @@ func (e *Engine) Apply(op *Op) error {
 		e.noteTarget(n)
 		return e.withIsolation(n, func() error { return e.arrayOp(n, op) })
 	// ------------------------------------------------------------ maps
-	case "mset", "mget", "mhas", "mrem", "mpop", "msetN", "mremN", "mgrow", "mreset", "mbadget", "mbadrem", "mbadhas":
+	case "mset", "mget", "mhas", "mrem", "mpop", "msetN", "mremN", "mupdN", "mgrow", "mreset", "mbadget", "mbadrem", "mbadhas":
 		n := e.pick(op.T, true, false)
 		if n == nil {
 			e.Stats.Skipped++
@@ -187,7 +187,7 @@ func (e *Engine) arrayOp(n *Node, op *Op) error {
 		return e.viol("array #%d count %d before the op, model has %d", n.ID, a.Count(), cnt)
 	}
 	switch op.K {
-	case "ins", "rem", "remN", "appN", "grow", "pop":
+	case "ins", "rem", "remN", "appN", "grow", "pop", "setN":
 		n.Shape++ // positions of the children shift / slabs split or merge: handles of children are now "older than a restructuring"
 	}
 	switch op.K {
@@ -338,6 +338,35 @@ func (e *Engine) arrayOp(n *Node, op *Op) error {
 		n.Elems = append(n.Elems[:idx:idx], n.Elems[idx+1:]...)
 		e.Stats.label("remove")
 		return e.handBack(old, prev, op.D == 1, fmt.Sprintf("Remove(%d) element", idx))
+
+	case "setN":
+		// overwrite many spread-out elements (shrinking or growing them in place): leaves underflow and merge,
+		// index slabs lose children, all through the Set path
+		for i := 0; i < op.N && len(n.Elems) > 0; i++ {
+			c := uint64(len(n.Elems))
+			idx := (op.P + uint64(i)*7919) % c
+			vd := op.V
+			if vd == nil || op.D == 2 {
+				vd = &VD{K: "u", N: uint64(i)}
+			} else {
+				vd = e.elemVD(op.V, uint64(i), 9)
+			}
+			v, m, err := e.mkScalar(vd, n.Addr, e.MaxArrElem)
+			if err != nil {
+				return err
+			}
+			old, err := a.Set(idx, v)
+			if err != nil {
+				return e.viol("in-range Set at %d/%d failed: %v", idx, c, err)
+			}
+			prev := n.Elems[idx]
+			n.Elems[idx] = m
+			if err := e.handBack(old, prev, false, fmt.Sprintf("Set(%d) previous element", idx)); err != nil {
+				return err
+			}
+		}
+		e.Stats.label("bulk_overwrite")
+		return nil
 
 	case "remN":
 		for i := 0; i < op.N && len(n.Elems) > 0; i++ {
@@ -637,6 +666,28 @@ func (e *Engine) mapOp(n *Node, op *Op) error {
 			return nil
 		}
 		return e.mapRemove(n, ck, op.D == 1)
+
+	case "mupdN":
+		for i := 0; i < op.N; i++ {
+			ck, ok := presentKey(n, op.P+uint64(i)*7919)
+			if !ok {
+				break
+			}
+			vd := op.V
+			if vd == nil || op.D == 2 {
+				vd = &VD{K: "u", N: uint64(i)}
+			} else {
+				vd = e.elemVD(op.V, uint64(i), 9)
+			}
+			if vd.K == "arr" || vd.K == "map" || vd.K == "cmap" || vd.K == "barr" {
+				vd = &VD{K: "u", N: vd.N}
+			}
+			if err := e.mapSet(n, n.Ents[ck].K, vd, false); err != nil {
+				return err
+			}
+		}
+		e.Stats.label("bulk_overwrite")
+		return nil
 
 	case "mremN":
 		for i := 0; i < op.N; i++ {
